@@ -2,6 +2,8 @@ package a16schema
 
 import (
 	"math/big"
+
+	"github.com/yandex/pandora/core/plugin"
 	"reflect"
 	"sort"
 	"strings"
@@ -54,6 +56,14 @@ func dumpValue(n *Node, v reflect.Value, b *strings.Builder) {
 		dumpFields(n, v, b, &first)
 		b.WriteByte('}')
 	case "ptr":
+		if n.Elem.Kind == "scalar" {
+			if v.IsNil() {
+				dumpValue(n.Elem, reflect.Zero(v.Type().Elem()), b)
+			} else {
+				dumpValue(n.Elem, v.Elem(), b)
+			}
+			return
+		}
 		if v.IsNil() || n.Elem.Kind != "struct" {
 			b.WriteString("N")
 			return
@@ -119,4 +129,130 @@ func dumpFields(n *Node, v reflect.Value, b *strings.Builder, first *bool) {
 		*first = false
 		dumpValue(f.Node, fv, b)
 	}
+}
+
+// Labeler maps the concrete type of a constructed plugin back to its registered (interface, name).
+type Labeler struct {
+	byType map[string]*Entry // iface + "|" + concrete type
+}
+
+// NewLabeler constructs every component of the given interfaces once with its default config.
+func NewLabeler(r *Reg, ifaces ...string) *Labeler {
+	l := &Labeler{byType: map[string]*Entry{}}
+	for _, iface := range ifaces {
+		for i := range r.ByIface[iface] {
+			e := &r.ByIface[iface][i]
+			func() {
+				defer func() { recover() }()
+				p, err := plugin.New(e.PluginType, e.Name)
+				if err != nil || p == nil {
+					return
+				}
+				l.byType[iface+"|"+reflect.TypeOf(p).String()] = e
+			}()
+		}
+	}
+	return l
+}
+
+// DumpDetailed is DumpValue with plugin values opened: P<hexlabel> followed by the dump of the
+// instance's fields named like the fields of the component's config (N when the component has no config).
+func (l *Labeler) DumpDetailed(n *Node, v reflect.Value) string {
+	var b strings.Builder
+	l.dump(n, v, &b)
+	return b.String()
+}
+
+func (l *Labeler) dump(n *Node, v reflect.Value, b *strings.Builder) {
+	switch n.Kind {
+	case "plugin":
+		if v.IsNil() {
+			b.WriteString("N")
+			return
+		}
+		inst := v.Elem()
+		e := l.byType[n.Iface+"|"+inst.Type().String()]
+		if e == nil {
+			b.WriteString("P?" + inst.Type().String())
+			return
+		}
+		b.WriteString("P" + hx(e.Name))
+		if e.Conf == nil {
+			b.WriteString("N")
+			return
+		}
+		for inst.Kind() == reflect.Ptr || inst.Kind() == reflect.Interface {
+			inst = inst.Elem()
+		}
+		b.WriteByte('{')
+		for i, f := range FlatFields(e.Conf) {
+			if i > 0 {
+				b.WriteByte(';')
+			}
+			fv := inst.FieldByName(f.GoName)
+			if !fv.IsValid() {
+				b.WriteString("?")
+				continue
+			}
+			l.dump(f.Node, fv, b)
+		}
+		b.WriteByte('}')
+	case "struct":
+		b.WriteByte('{')
+		for i, f := range FlatFields(n) {
+			if i > 0 {
+				b.WriteByte(';')
+			}
+			l.dump(f.Node, fieldByPath(n, v, f.GoName), b)
+		}
+		b.WriteByte('}')
+	case "ptr":
+		if n.Elem.Kind == "struct" {
+			if v.IsNil() {
+				b.WriteString("N")
+				return
+			}
+			l.dump(n.Elem, v.Elem(), b)
+			return
+		}
+		dumpValue(n, v, b)
+	case "slice":
+		// an empty list and a nil list are the same ammo
+		if v.Len() == 0 {
+			b.WriteString("N")
+			return
+		}
+		b.WriteByte('[')
+		for i := 0; i < v.Len(); i++ {
+			if i > 0 {
+				b.WriteByte(';')
+			}
+			l.dump(n.Elem, v.Index(i), b)
+		}
+		b.WriteByte(']')
+	case "map":
+		if v.Len() == 0 {
+			b.WriteString("N")
+			return
+		}
+		dumpValue(n, v, b)
+	default:
+		dumpValue(n, v, b)
+	}
+}
+
+// fieldByPath finds a (possibly squashed) field by its Go name.
+func fieldByPath(n *Node, v reflect.Value, goName string) reflect.Value {
+	for _, f := range n.Fields {
+		if f.Squash {
+			if r := fieldByPath(f.Node, v.FieldByName(f.GoName), goName); r.IsValid() {
+				return r
+			}
+			continue
+		}
+		if f.GoName == goName {
+			return v.FieldByName(f.GoName)
+		}
+	}
+	return reflect.Value{}
 }
